@@ -105,8 +105,8 @@ def obs (s : St) : List Nat × Option Nat × Bool × Nat × Bool × Bool :=
 theorem wDetach_obs : ((sys isT).run wDetach).map obs = some ([0], none, false, 0, false, true) := by decide
 theorem wThird_obs : ((sys isT).run wThird).map obs = some ([0, 1000], some 1000, false, 0, false, false) := by decide
 theorem wStale_obs : ((sys isT).run wStale).map obs = some ([1000], some 1000, true, 1, false, true) := by decide
-theorem wOver_obs : ((sys isT).run wOver).map (fun s => (obs s, s.pc 16, s.first 16)) =
-    some (([], some 1000, false, 0, false, true), .fTake, none) := by decide
+theorem wOver_obs : ((sys isT).run wOver).map (fun s => (decide (s.pc 16 = .fTake), s.first 16, decide (untainted s 16))) =
+    some (true, none, false) := by decide
 theorem okJoinFirst_obs : ((sys isT).run okJoinFirst).map obs = some ([1000], some 1000, true, 0, true, false) := by decide
 theorem okFinishFirst_obs : ((sys isT).run okFinishFirst).map obs = some ([1000], some 1000, true, 0, true, false) := by decide
 theorem okDetached_obs : ((sys isT).run okDetached).map obs = some ([], some 1000, true, 0, true, true) := by decide
@@ -270,10 +270,10 @@ theorem no_stranded_fails :
   cases hr : (sys isT).run wOver with
   | none => simp [hr] at ho
   | some s =>
-    simp [hr, obs] at ho
-    obtain ⟨p, hp⟩ := h _ _ hr 16 ho.2.1
+    simp [hr] at ho
+    obtain ⟨p, hp⟩ := h _ _ hr 16 ho.1
     have := (inv_of_run hr).i0.fj p 16 (jpk_jp hp)
-    simp [ho.2.2] at this
+    simp [ho.2.1] at this
 
 /-- Without a window every waiting party has a live counterpart:
     (i)   a client in clear_or_wait on g's mailbox: the finished g is on its way into the
